@@ -757,14 +757,27 @@ impl<'a, 'b> TreeGen<'a, 'b> {
                 unreachable!()
             };
 
-            // This is just to prevent repeated assigning clones for the same fallback
-            // used in multiple places
-            // So we could just overwrite it everytime too.
+            // The hoisted `then` function takes its parameters in the order recorded here,
+            // the first time the clause is reached.
             if assigns.is_empty() {
                 *assigns = row.assigns.clone();
             }
 
-            return DecisionTree::HoistedLeaf(row.then, row.assigns);
+            // Another leaf of the same clause may have collected the same assignments in a
+            // different order (it depends on which columns were specialised first), so the
+            // arguments are always passed in the order of the parameters.
+            let args = assigns
+                .iter()
+                .map(|param| {
+                    row.assigns
+                        .iter()
+                        .find(|arg| arg.assigned == param.assigned)
+                        .cloned()
+                        .unwrap_or_else(|| param.clone())
+                })
+                .collect_vec();
+
+            return DecisionTree::HoistedLeaf(row.then, args);
         };
 
         let mut longest_elems_no_tail = None;
